@@ -325,25 +325,8 @@ def coin_parts(t):
 
 
 def term_field(t, name):
-    """field `name` of a struct-valued term (through updates, merges, Coin::new and fresh aggregates)."""
-    from engine.mir import intern
-    if t[0] == "agg":
-        v = agg_field(t, name)
-        return v if v is not None else ("field", t, name)
-    if t[0] == "call" and t[1] == "cosmwasm_std::Coin::new" and len(t[2]) == 2:
-        return t[2][0] if name == "amount" else (t[2][1] if name == "denom" else ("field", t, name))
-    if t[0] == "upd":
-        if t[2] and t[2][0] == name:
-            return t[3] if len(t[2]) == 1 else ("upd", term_field(t[1], name), t[2][1:], t[3])
-        return term_field(t[1], name)
-    if t[0] == "phi":
-        alts = []
-        for a in t[1]:
-            f = term_field(a, name)
-            if f not in alts:
-                alts.append(f)
-        return alts[0] if len(alts) == 1 else intern(("phi", tuple(alts)))
-    return intern(("field", t, name))
+    from engine.mir import field_of
+    return field_of(t, name)
 
 
 def vec_elems(t):
